@@ -7,8 +7,8 @@ import (
 
 // SelCase is one communication clause of a rewritten select statement.
 type SelCase struct {
-	op  Op
-	m   *chanMeta
+	op    Op
+	m     *chanMeta
 	rc    reflect.SelectCase
 	dir   uint8 // 1 send, 2 recv
 	unbuf bool  // emulated unbuffered channel (see chanMeta)
